@@ -219,9 +219,16 @@ func (g *Gen) Ext() Step {
 			s := Step{Op: "acl.token.set", ID: TokenUUID(id), Text: SecretUUID(id), Flag2: simkit.Chance(r, 25), Flag: simkit.Chance(r, 15)}
 			if simkit.Chance(r, 70) {
 				s.List = []string{PolicyUUID(n3())}
+				// several links: deleting one that is not the last leaves a hole the readers close
+				for simkit.Chance(r, 35) && len(s.List) < 3 {
+					s.List = append(s.List, PolicyUUID(n3()))
+				}
 			}
 			if simkit.Chance(r, 30) {
 				s.List2 = []string{RoleUUID(n3())}
+				if simkit.Chance(r, 35) {
+					s.List2 = append(s.List2, RoleUUID(n3()))
+				}
 			}
 			if simkit.Chance(r, 20) {
 				s.Svc = g.pick(g.U.Services)
